@@ -13,7 +13,7 @@ from common import Disagreement, Failure
 ID = 'C03'
 DRIVER = 'drv_insp'
 DRIVER_ROOT = 'Drivers.Insp'
-PROOF_MODULES = ['OsloProofs.Props.C03', 'OsloProofs.Props.C03Stable']
+PROOF_MODULES = ['OsloProofs.Props.C03', 'OsloProofs.Props.C03Stable', 'OsloProofs.Props.C03All']
 LEVEL = 'proof'
 RULE = ('contents: every subset-overlay of the nine format signatures (images.SIGNATURES, ISO with its three '
         'identifiers) and the FAT boot-sector look-alike on zero / random / text / 0xff backgrounds of lengths on both '
